@@ -323,6 +323,49 @@ func (w *World) globalConstLen(g *ssa.Global) (int64, bool) {
 	return 0, false
 }
 
+// wireInt: v is a number parsed from external input (strconv.Atoi/ParseInt/ParseUint, possibly
+// converted): nothing bounds it, so arithmetic on it can wrap around.
+func wireInt(v ssa.Value, depth int) bool {
+	if v == nil || depth > 4 {
+		return false
+	}
+	switch x := v.(type) {
+	case *ssa.Extract:
+		if call, ok := x.Tuple.(*ssa.Call); ok && x.Index == 0 {
+			if f := call.Call.StaticCallee(); f != nil && f.Pkg != nil && f.Pkg.Pkg.Path() == "strconv" {
+				switch f.Name() {
+				case "Atoi", "ParseInt", "ParseUint":
+					return true
+				}
+			}
+		}
+	case *ssa.Convert:
+		return wireInt(x.X, depth+1)
+	case *ssa.Phi:
+		for _, e := range x.Edges {
+			if wireInt(e, depth+1) {
+				return true
+			}
+		}
+	}
+	return false
+}
+
+// guardTerm linearises an operand of a comparison guard. Machine integers wrap: `n+1` computed from an
+// unbounded parsed number is not n+1 for n = MaxInt, so a guard such as `len(s) < n+1` says nothing
+// about n. Such an operand is kept as an opaque atom (the test then yields no fact about n).
+func (b *boundsCtx) guardTerm(v ssa.Value) lin {
+	if bo, ok := v.(*ssa.BinOp); ok {
+		switch bo.Op {
+		case token.ADD, token.SUB, token.MUL:
+			if wireInt(bo.X, 0) || wireInt(bo.Y, 0) {
+				return linAtom("wrap:" + atomKey(v))
+			}
+		}
+	}
+	return b.term(v, 0)
+}
+
 // term linearises an integer-valued SSA value.
 func (b *boundsCtx) term(v ssa.Value, depth int) lin {
 	if depth > 10 {
@@ -414,7 +457,7 @@ func (b *boundsCtx) addGuardFacts(in ssa.Instruction) (facts []lin, neq [][2]lin
 			}
 			noteIndex(c.X)
 			noteIndex(c.Y)
-			x, y := b.term(c.X, 0), b.term(c.Y, 0)
+			x, y := b.guardTerm(c.X), b.guardTerm(c.Y)
 			op := c.Op
 			if !g.Pol {
 				op = map[token.Token]token.Token{token.LSS: token.GEQ, token.GEQ: token.LSS, token.GTR: token.LEQ, token.LEQ: token.GTR, token.EQL: token.NEQ, token.NEQ: token.EQL}[op]
